@@ -1,0 +1,47 @@
+//go:build verif
+
+package syncer
+
+// Exports for the verification harness (/verif). Only compiled with the
+// build tag "verif"; nothing here changes the behaviour of the package.
+
+import (
+	"context"
+	"time"
+
+	"github.com/PowerDNS/lightningstream/lmdbenv/header"
+	"github.com/PowerDNS/lightningstream/snapshot"
+	"github.com/PowerDNS/lightningstream/syncer/cleaner"
+	"github.com/PowerDNS/lmdb-go/lmdb"
+)
+
+func (s *Syncer) VerifMainToShadow(ctx context.Context, txn *lmdb.Txn, ts header.Timestamp) error {
+	return s.mainToShadow(ctx, txn, ts)
+}
+
+func (s *Syncer) VerifShadowToMain(ctx context.Context, txn *lmdb.Txn) error {
+	return s.shadowToMain(ctx, txn)
+}
+
+func (s *Syncer) VerifReadDBI(txn *lmdb.Txn, dbiName, origDBIName string, rawValues bool) (*snapshot.DBI, error) {
+	return s.readDBI(txn, dbiName, origDBIName, rawValues)
+}
+
+func (s *Syncer) VerifDeletedCutoff(now time.Time) header.Timestamp { return s.deletedCutoff(now) }
+
+func (s *Syncer) VerifInstanceID() string { return s.instanceID() }
+
+func (s *Syncer) VerifCleaner() *cleaner.Worker { return s.cleaner }
+
+func (s *Syncer) VerifLastByInstance() map[string]time.Time {
+	m := make(map[string]time.Time, len(s.lastByInstance))
+	for k, v := range s.lastByInstance {
+		m[k] = v
+	}
+	return m
+}
+
+func VerifDupSortEncodeOne(e snapshot.KV) (snapshot.KV, error) { return dupSortHackEncodeOne(e) }
+func VerifDupSortDecodeOne(e snapshot.KV) (snapshot.KV, error) { return dupSortHackDecodeOne(e) }
+func VerifDupSortEncode(d *snapshot.DBI) (*snapshot.DBI, error) { return dupSortHackEncode(d) }
+func VerifDupSortDecode(d *snapshot.DBI) (*snapshot.DBI, error) { return dupSortHackDecode(d) }
